@@ -256,12 +256,14 @@ DT = 5
 T_TOT = [1000]   # process time of the runs of the current case (set per case, see `_final_event`)
 
 
-def _spec(case, k=0):
+def _spec(case, k=0, start=None):
     """configuration number k of the case as a COMPLETE specification (0 = the base configuration)"""
-    base = {"rate": 0.1, "end": -45, "holding": None, "t_tot": T_TOT[0], "dt": DT, "how": "inplace"}
+    base = {"rate": 0.1, "end": -45, "holding": None, "t_tot": T_TOT[0], "dt": DT, "how": "inplace", "start": 5}
     cfgs = case.get("cfgs") if case else None
     if cfgs and k:
         base.update(cfgs[k])
+    if start is not None:
+        base["start"] = start       # start temperature of the cooling programme = initial vial temperature
     return base
 
 
@@ -270,7 +272,7 @@ def _opcond(spec=None):
 
     spec = spec or _spec(None)
     hold = None if spec["holding"] is None else [dict(temp=t, duration=d) for t, d in spec["holding"]]
-    return OperatingConditions(t_tot=spec["t_tot"], cooling={"rate": spec["rate"], "start": 5, "end": spec["end"]},
+    return OperatingConditions(t_tot=spec["t_tot"], cooling={"rate": spec["rate"], "start": spec["start"], "end": spec["end"]},
                                holding=hold)
 
 
@@ -330,23 +332,29 @@ def _config_file(text):
     return str(p)
 
 
-def _flake(case, seed, nv, store=None, seed_v=None, cfg=0):
+def _flake(case, seed, nv, store=None, seed_v=None, cfg=0, start=None, explicit=False):
+    """`explicit`: the initial state is given as an argument (the reference objects); otherwise the constructor's
+    default `initialStates` is used, i.e. the vials start at the programme's start temperature"""
     from ethz_snow.snowflake import Snowflake
 
-    spec = _spec(case, cfg)
+    spec = _spec(case, cfg, start)
     kw = _kw(case)
     kw.pop("seed", None)          # Snowfall chooses the seeds itself
     kw.pop("storeStates", None)   # ... and never stores states
     if seed_v is not None:
         kw["seed_v"] = seed_v
     kw.setdefault("dt", spec["dt"])
+    if explicit:
+        kw["initialStates"] = {"temp": spec["start"], "sigma": None}
     return Snowflake(k=_k(case), N_vials=tuple(nv), seed=seed, opcond=_opcond(spec), storeStates=store, **kw)
 
 
-def _fresh(case, seed, nv, cache, seed_v=None, cfg=0):
-    key = (seed, tuple(nv), seed_v, cfg)
+def _fresh(case, seed, nv, cache, seed_v=None, cfg=0, start=None):
+    key = (seed, tuple(nv), seed_v, cfg, start)
     if key not in cache:
-        S = _flake(case, seed, nv, seed_v=seed_v, cfg=cfg)
+        # the reference states its initial temperature explicitly: nothing an earlier object of this process may
+        # have left in a shared default can reach it
+        S = _flake(case, seed, nv, seed_v=seed_v, cfg=cfg, start=start, explicit=True)
         S.run()
         cache[key] = _digest(S.stats)
     return cache[key]
@@ -357,15 +365,20 @@ def _run_history(case, store=None):
     ops_obs = []
     fresh = {}
     cfg = 0
+    n_new, start = 0, None
     for op in case["ops"]:
         mark = _begin()
         o = {"op": op}
         if op[0] == "new":
-            S = _flake(case, op[1], op[2:5], store)
+            # successive objects of one history (one process) are built for different start temperatures
+            starts = case.get("starts") or [None]
+            start = starts[n_new % len(starts)]
+            n_new += 1
+            S = _flake(case, op[1], op[2:5], store, start=start)
             cfg = 0
         elif op[0] == "editCfg":
             cfg = op[1]
-            _apply_cfg(S, _spec(case, cfg))
+            _apply_cfg(S, _spec(case, cfg, start))
         elif op[0] == "setSeed":
             S.seed = op[1]
         elif op[0] == "build":
@@ -391,7 +404,8 @@ def _run_history(case, store=None):
             o["seed_v"] = int(S.seed_v)
             o["xi"] = next(([e[1], e[2]] for e in evs if e[0] == "xi"), None)
             o["cfg"] = cfg
-            o["fresh"] = _fresh(case, int(S.seed), list(S.N_vials), fresh, int(S.seed_v), cfg)
+            o["start"] = start
+            o["fresh"] = _fresh(case, int(S.seed), list(S.N_vials), fresh, int(S.seed_v), cfg, start)
         ops_obs.append(o)
     return ops_obs
 
@@ -399,11 +413,14 @@ def _run_history(case, store=None):
 def _run_fall(case):
     from ethz_snow.snowfall import Snowfall
 
-    mark = _begin()
+    if case.get("decoy_start") is not None:
+        # another object built earlier in this process, for another start temperature
+        _flake(case, 1, case["nv"], start=case["decoy_start"])
     kw = _kw(case)
     kw.setdefault("dt", DT)
+    mark = _begin()
     F = Snowfall(Nrep=case["nrep"], pool_size=case["pool"], k=_k(case), N_vials=tuple(case["nv"]),
-                 opcond=_opcond(), **kw)
+                 opcond=_opcond(_spec(case, 0, case.get("start"))), **kw)
     evs = EVENTS[mark:]
     _note_shelf(F.Sf_template, evs)
     obs = {"init_evs": _plain(evs), "passes": []}
@@ -416,7 +433,7 @@ def _run_fall(case):
             t = st.pop("_c04")
             t["seed"] = int(i)
             t["digest_parent"] = _digest(st)
-            t["fresh"] = _fresh(case, int(i), case["nv"], fresh, (case.get("kw") or {}).get("seed_v"))
+            t["fresh"] = _fresh(case, int(i), case["nv"], fresh, (case.get("kw") or {}).get("seed_v"), 0, case.get("start"))
             tasks.append(t)
         # chunks: tasks grouped by the object copy they ran on, in execution order
         groups = {}
@@ -549,7 +566,7 @@ def compare(case, impl, model):
             _cmp_trace(impl["ops"], model["trace_old"], d_old)
             if not d_old:
                 dis[0] = "implementation follows the PRE-REPAIR model (runOld, defect F3), not the repaired one: " + dis[0]
-        _same_sched_same_stats([([o["sched"], o["xi"], o["cfg"]], o["digest"]) for o in impl["ops"] if o["op"][0] == "run"], dis)
+        _same_sched_same_stats([([o["sched"], o["xi"], o["cfg"], o["start"]], o["digest"]) for o in impl["ops"] if o["op"][0] == "run"], dis)
     elif case["kind"] == "record":
         for v in impl["variants"]:
             _cmp_trace(v["ops"], model["trace"], dis, where=f"storeStates={v['store']!r}: ")
@@ -613,7 +630,8 @@ def predicates(case, impl):
             if o["op"][0] == "run" and o["digest"] != o["fresh"]:
                 out.append(Failure(
                     clause="run_schedule_canonical", key=f"history_independent|Snowflake.run|{var}",
-                    detail=f"after {[x['op'] for x in impl['ops'][:i]]} the run with seed {o['seed']}, seed_v {o['seed_v']}, N_vials "
+                    detail=f"after {[x['op'] for x in impl['ops'][:i]]} (start temperatures of the objects built: {case.get('starts')}) "
+                           f"the run with seed {o['seed']}, seed_v {o['seed_v']}, N_vials "
                            f"{o['sched']['nv']}, configuration {o['cfg']} = {_spec(case, o['cfg'])} differs bit-wise from a fresh "
                            f"Snowflake(seed={o['seed']}, seed_v={o['seed_v']}) of that configuration "
                            f"(schedule used: {o['sched']})"))
@@ -733,7 +751,7 @@ def _history(rng, maxlen):
     if rng.random() < 0.7 and len(ops) < maxlen:
         ops.append(["setSeed", rng.choice(SEEDS)])
     ops.append(["run"])
-    return dict(kind="history", sigma=sigma, cfgs=_cfg_specs(rng),
+    return dict(kind="history", sigma=sigma, cfgs=_cfg_specs(rng), starts=rng.choice([None, [5, 2], [8, 5, 0], [3]]),
                 ops=ops[-maxlen:] if ops[-maxlen:][0][0] == "new" else ops[:1] + ops[-(maxlen - 1):])
 
 
@@ -743,7 +761,13 @@ def _targeted(rng):
     s0, s1 = rng.choice(SEEDS), rng.choice(SEEDS)
     a, b = rng.choice([([3, 2, 1], [2, 3, 1]), ([2, 3, 1], [3, 2, 1]), ([3, 3, 1], [2, 2, 1]), ([2, 2, 1], [1, 3, 1])])
     v = rng.choice([2, 7])
-    k = rng.randrange(10)
+    k = rng.randrange(12)
+    if k >= 10:
+        # two objects constructed one after the other in this process, for different start temperatures
+        T1, T2 = rng.sample([8, 5, 2, 0, -2], 2)
+        return dict(kind="history", sigma=sigma, cfgs=_cfg_specs(rng), starts=[T1, T2],
+                    ops=[["new", s0] + a, ["run"], ["new", s1] + b, ["run"]] if k == 10 else
+                        [["new", s0] + a, ["new", s1] + b, ["setSeed", s0], ["run"]])
     if k >= 6:
         # the attached configuration is edited (in place / replaced) between runs
         ops = [[["new", s0] + a, ["run"], ["editCfg", 1], ["run"]],
@@ -832,7 +856,7 @@ def cases(rng, tier):
             if quick and how == "sync" and "seed_v" not in kw:
                 continue
             yield dict(kind="fall", sigma=rng.choice([0.1, 0]), nv=rng.choice([[3, 3, 1], [2, 2, 1], [2, 3, 1]]), nrep=3,
-                       pool=2, hows=[how], kw=kw)
+                       pool=2, hows=[how], kw=kw, start=rng.choice([None, 8, 2]), decoy_start=rng.choice([None, 0, 6]))
     # one Snowfall object run several times (sequential mutates the template)
     for hows in (["sequential", "sequential"], ["sequential", "async"], ["async", "sequential", "sync"]):
         for sigma in (0.1, 0):
